@@ -8,7 +8,7 @@ same file) is compared with the model; a disagreement is diagnosed by interventi
 (drop operations, retarget the read, drop spelling / stored-form features, move to the other
 namespace class) so that the signature names the mechanism.
 
-Workload: bounded-exhaustive histories over a 28-symbol concrete alphabet (length <=3 quick,
+Workload: bounded-exhaustive histories over a 29-symbol concrete alphabet (length <=3 quick,
 <=4 thorough) + random histories (length 1..40) over {0, Template, Module, Template talk,
 Wiktionary} x 4 base names x spelling variants.
 """
@@ -29,12 +29,16 @@ RULE = ("case = one operation history over {add (canonical / prefix omitted / st
         "get_page_body, get_page_resolve_redirect (each also with namespace_id=None on the full title under every spelling of "
         "the prefix), expand('{{T}}'), get_page(full title, None), commit, reopen (close + "
         "Wtp(db_path)), peek (second Wtp on the same file)} with unique bodies '(vN)'; every history ends with a read sweep "
-        "over the keys it wrote. Part E: ALL histories of length 1..L (L=3 quick, 4 thorough) over a 28-symbol concrete "
-        "alphabet; part R: seeded random histories of length 1..40 over 5 namespaces x 4 base names x spelling variants "
+        "over the keys it wrote. Part E: ALL histories of length 1..L (L=3 quick, 4 thorough) over a 29-symbol concrete "
+        "alphabet; part R: seeded random histories of length 1..40 over 5 namespaces x base names built from a first letter (derived from the Unicode case tables: 7 ASCII incl. "
+        "M/a/i/n, 12 whose upper case sorts before and 19 whose upper case sorts after the lower case) and 6 tails, stored in "
+        "the upper-cased form, the lower-case form or both; main-namespace pages also added / read / redirected to as "
+        "'Main:...'; the exhaustive alphabet is run with a first-letter parameter rotating over the same letters; x spelling variants "
         "(prefix canonical/omitted/lower/upper/mixed/alias/key, lower-case first letter, '_' for blanks, case-mangled second "
         "letter). distinct = distinct operation sequence; non-trivial = contains a read of a key after a write of that key")
 ASSUMPTIONS = [
-    "titles are added only under the canonical prefix or with the prefix omitted (the statement says nothing about adding under an alias)",
+    "titles are added only under the canonical prefix ('Main:' for the main namespace) or with the prefix omitted (the statement says nothing about adding under an alias)",
+    "'main:' in another case: result not compared (the statement makes the prefix case-insensitive, the pinned code only knows 'Main:'); existence == lookup still is",
     "redirect targets stay in the redirect's namespace; when the target is itself a redirect only the body (None) is compared; "
     "a lower-case redirect target that is a redirect while its upper-cased twin is a page is not compared",
     "expand('{{X}}') is used as a read only in spellings where the expander's own namespace inference is unambiguous "
@@ -49,7 +53,54 @@ ASSUMPTIONS = [
 ]
 WALL = {"quick": 600, "thorough": 3000}
 
-BASES = ["Foo bar", "Qux", "qux", "Éa b"]
+def derive_letters():
+    """First letters for base names, derived from the Unicode case tables: lower-case letters whose
+    upper-case form is one other character, split by whether that form has the higher or the lower code
+    point (= UTF-8 / SQLite BINARY order) -- both orders occur (y-diaeresis, micro sign, Georgian, IPA ...)."""
+    import unicodedata
+    hi, lo = [], []
+    for cp in range(0x80, 0x2D30):
+        c = chr(cp)
+        u = c.upper()
+        if u != c and len(u) == 1 and unicodedata.category(c) == "Ll":
+            (hi if ord(u) > cp else lo).append(c)
+    ascii_ = list("fqmainx")        # incl. the letters of the main namespace's own prefix
+    return ascii_ + lo[::61] + hi[::8]
+
+
+LETTERS = derive_letters()
+TAILS = ["oo bar", "ux", "ain Page", "ai", " b", "nia i"]     # tails also built from the letters of 'Main:'
+BASES = ["Foo bar", "Qux", "qux", "Éa b"]                      # fallback universe (replayed old witnesses)
+
+
+def stems(rng, k):
+    """k base-name stems -> list of base names: the upper-cased form, the lower-case form, or both."""
+    out = []
+    for _ in range(k):
+        c = rng.choice(LETTERS)
+        t = rng.choice(TAILS)
+        r = rng.random()
+        if r < 0.5:
+            out += [c.upper() + t, c + t]
+        elif r < 0.85:
+            out.append(c.upper() + t)
+        else:
+            out.append(c + t)
+    return out
+
+
+def instantiate(ops, c):
+    """The exhaustive alphabet is written with first letters F/f and Q/q; run it with first letter c / c.upper()."""
+    def nm(b):
+        return (c.upper() if b[:1].isupper() else c) + b[1:]
+    out = []
+    for o in ops:
+        if "b" in o:
+            o = dict(o, b=nm(o["b"]))
+            if "tb" in o:
+                o["tb"] = nm(o["tb"])
+        out.append(o)
+    return out
 NSS = [0, 10, 828, 11, 4]
 READS = ("get", "exists", "body", "resolve", "expand", "getfull")
 SCALE = float(os.environ.get("VERIF_C10_SCALE", "1"))
@@ -61,7 +112,9 @@ def floors(tier):
             "counters.op.commit": 50, "counters.hist.exhaustive": 1000, "counters.hist.random": 500,
             "counters.memo_hits": 1, "oracle.exists-agrees-with-lookup.ns-None": 300, "counters.read_ns_none_compared": 1000,
             "counters.read_ns_none.get": 200, "counters.read_ns_none.exists": 200, "counters.read_ns_none.body": 200,
-            "counters.read_ns_none.resolve": 200, "sets.spellings": 40, "sets.namespaces": 5,
+            "counters.read_ns_none.resolve": 200, "counters.add_via_Main_prefix": 500, "counters.read_via_Main_prefix": 500,
+            "counters.write_with_case_twin_stored": 500, "counters.read_with_case_twin_stored": 1000,
+            "counters.read_with_case_twin_stored.upper_sorts_after_lower": 200, "sets.first_letters": 30, "sets.spellings": 40, "sets.namespaces": 5,
             "anchors.Wtp.get_page": 10000, "anchors.Wtp.add_page": 5000, "anchors.Wtp.page_exists": 1000,
             "anchors.Wtp.get_page_body": 1000, "anchors.Wtp.get_page_resolve_redirect": 1000,
             "anchors.Wtp.create_db": 100, "anchors.Wtp.close_db_conn": 100, "nontrivial": 3000}
@@ -83,7 +136,10 @@ def exhaustive(tier, total):
 # symbolic operations -> concrete strings
 
 def prefix_of(ns, pf):
-    if not ns or pf == "omit":
+    if not ns:
+        # the main namespace's own prefix, given ('Main:') or given in another case
+        return {"main": "Main:", "mainlc": "main:"}.get(pf, "")
+    if pf == "omit":
         return ""
     name, others = NS[ns]
     if pf == "canon":
@@ -105,7 +161,7 @@ def prefix_of(ns, pf):
 
 def pf_choices(ns):
     if not ns:
-        return ["omit"]
+        return ["omit", "omit", "main", "main", "mainlc"]
     out = ["canon", "omit", "lower", "upper", "mixed"]
     others = NS[ns][1]
     if others:
@@ -133,6 +189,8 @@ def add_title(op, sfx):
     name = op["b"] + sfx
     if op.get("us"):
         name = name.replace(" ", "_")
+    if not op["ns"]:
+        return ("Main:" if op.get("pf") == "main" else "") + name
     return (prefix_of(op["ns"], "canon") if op.get("pf", "canon") == "canon" else "") + name
 
 
@@ -142,6 +200,8 @@ def target_title(op, sfx):
     tf = op.get("tf", "canon")
     if tf == "bare":
         return name
+    if tf == "main":
+        return "Main:" + name
     t = prefix_of(ns, "canon") + name
     return t.replace(" ", "_") if tf == "us" else t
 
@@ -168,7 +228,8 @@ def expand_text(op, sfx):
 
 def spn(op):
     sp = op.get("sp", {})
-    return (sp.get("pf", "canon") if op.get("ns") else "omit", bool(sp.get("lc")), bool(sp.get("us")), bool(sp.get("cm")),
+    pf = sp.get("pf", "canon") if op.get("ns") else (sp.get("pf") if sp.get("pf") in ("main", "mainlc") else "omit")
+    return (pf, bool(sp.get("lc")), bool(sp.get("us")), bool(sp.get("cm")),
             bool(op.get("nn")))
 
 
@@ -177,6 +238,8 @@ def sp_tag(op):
     tags = []
     if op.get("ns") and sp.get("pf", "canon") != "canon":
         tags.append("prefix-" + sp["pf"])
+    if not op.get("ns") and sp.get("pf") in ("main", "mainlc"):
+        tags.append("prefix-Main" if sp["pf"] == "main" else "prefix-main-lower-case")
     for k, name in (("lc", "lcfirst"), ("us", "underscore"), ("cm", "case-mangled")):
         if sp.get(k):
             tags.append(name)
@@ -266,6 +329,12 @@ def real_read(ctx, op, sfx):
     raise ValueError(o)
 
 
+def twins(store, ns, name):
+    """Both the lower-case-first-letter and the upper-cased spelling of name are stored in ns."""
+    a, b = (ns, name[:1].upper() + name[1:]), (ns, name[:1].lower() + name[1:])
+    return a != b and a in store and b in store
+
+
 def show(exp):
     if exp is None or exp is SKIP or isinstance(exp, (bool, list, str)):
         return repr(exp)
@@ -296,6 +365,11 @@ def execute(store, ops, sfx, nomemo=False, diagnose=False, obs=None, stats=None)
             ctx.add_page(title, op["ns"], body, model=op.get("model", "wikitext"))
             m.add(op["ns"], title, body, None, op.get("model", "wikitext"))
             written.add((op["ns"], op["b"]))
+            if stats is not None:
+                if op.get("pf") == "main":
+                    stats["add_via_Main_prefix"] = stats.get("add_via_Main_prefix", 0) + 1
+                if twins(m.store, op["ns"], op["b"] + sfx):
+                    stats["write_with_case_twin_stored"] = stats.get("write_with_case_twin_stored", 0) + 1
         elif o == "redir":
             title = add_title(op, sfx)
             tgt = target_title(op, sfx)
@@ -368,6 +442,13 @@ def execute(store, ops, sfx, nomemo=False, diagnose=False, obs=None, stats=None)
                                  "got": "page_exists=%r, get_page is not None=%r" % (got, g2), "exp": "equal", "rel": True})
             key = (op["ns"], op["b"])
             if stats is not None and not op.get("dx"):
+                if twins(m.store, op["ns"], op["b"] + sfx):
+                    stats["read_with_case_twin_stored"] = stats.get("read_with_case_twin_stored", 0) + 1
+                    if op["ns"] and ord((op["b"][:1]).upper()) > ord((op["b"][:1]).lower()[:1]):
+                        stats["read_with_case_twin_stored.upper_sorts_after_lower"] = \
+                            stats.get("read_with_case_twin_stored.upper_sorts_after_lower", 0) + 1
+                if op.get("sp", {}).get("pf") in ("main", "mainlc"):
+                    stats["read_via_Main_prefix"] = stats.get("read_via_Main_prefix", 0) + 1
                 if op.get("nn"):
                     stats["read_ns_none." + o] = stats.get("read_ns_none." + o, 0) + 1
                     if exp is not SKIP:
@@ -621,16 +702,12 @@ def diagnose(lab, executed, mm):
         last = w[-1]
         if "sp" in last and not last["sp"].get("cm"):
             conc = last["b"][:1].lower() + last["b"][1:] if last["sp"].get("lc") else last["b"]
-            for o in w[:-1]:
-                if o["o"] in ("add", "redir") and o["ns"] == last["ns"]:
-                    if o["b"] == conc:
-                        nb, nlc = o["b"], False
-                    elif o["b"][:1].lower() + o["b"][1:] == conc:
-                        nb, nlc = o["b"], True
-                    else:
-                        continue
-                    w = attempt(w, lambda r, nb=nb, nlc=nlc: dict(r, b=nb, sp=dict(r["sp"], lc=nlc)))
-                    break
+            wr = [o for o in w[:-1] if o["o"] in ("add", "redir") and o["ns"] == last["ns"]]
+            cands = [(o["b"], False) for o in wr if o["b"] == conc] + \
+                    [(o["b"], True) for o in wr if o["b"] != conc and o["b"][:1].lower() + o["b"][1:] == conc]
+            if cands:       # the exact spelling of a written title first, else its lower-cased first letter
+                nb, nlc = cands[0]
+                w = attempt(w, lambda r, nb=nb, nlc=nlc: dict(r, b=nb, sp=dict(r["sp"], lc=nlc)))
         for simpler in ("get", "body"):
             if w[-1]["o"] in ("get", "getfull", simpler):
                 break
@@ -669,6 +746,8 @@ def diagnose(lab, executed, mm):
                 stored.add("underscore")
             if o.get("pf", "canon") != "canon" and o["ns"]:
                 stored.add("prefix-omitted")
+            if o.get("pf") == "main" and not o["ns"]:
+                stored.add("prefix-Main")
             if o.get("nb"):
                 stored.add("noinclude-body")
             if o.get("model", "wikitext") != "wikitext":
@@ -689,7 +768,9 @@ def diagnose(lab, executed, mm):
                 all(o.get("pf", "canon") == "canon" for o in w if o["o"] in ("add", "redir"))
             nstag = "any" if (pf_free and ok_other and fails(other)) else "non-main"
         else:
-            nstag = "any" if (ok_other and fails(other)) else "main"
+            pf_free = all(o.get("sp", {}).get("pf") not in ("main", "mainlc") for o in w if "sp" in o) and \
+                all(o.get("pf") != "main" for o in w if o["o"] in ("add", "redir"))
+            nstag = "any" if (pf_free and ok_other and fails(other)) else "main"
     fin = lab.final(w, True) or mm
     fields = fin["fields"]
     kind = "lost" if fields == ("absent",) else "phantom" if fields == ("phantom",) else "wrong:" + "+".join(fields)
@@ -759,19 +840,20 @@ ALPHABET = [
     {"o": "redir", "ns": 10, "b": "Foo bar", "pf": "canon", "tb": "Qux", "tf": "canon"},
     {"o": "add", "ns": 10, "b": "Qux", "pf": "canon"},
     {"o": "add", "ns": 0, "b": "Foo bar", "pf": "canon"},
+    {"o": "add", "ns": 10, "b": "foo bar", "pf": "canon"},       # the lower-case twin of K: both spellings stored
+    {"o": "add", "ns": 0, "b": "Foo bar", "pf": "main"},         # main-namespace page added as 'Main:...'
     _r("get", K),
     _r("get", K, pf="omit", lc=True, us=True),
     _r("get", K, pf="lower"),
     _r("exists", K, pf="alias0"),
     _r("body", K),
-    _r("body", K, pf="omit", lc=True),
     _r("resolve", K),
     _r("expand", K, pf="omit"),
     _r("expand", K, pf="omit", lc=True, us=True),
     _r("get", T),
     _r("get", M),
     _r("get", M, lc=True),
-    _r("get", K, cm=True),
+    _r("get", M, pf="main"),
     # namespace_id=None: the prefix of the full title alone selects the namespace
     dict(_r("exists", K), nn=1),
     dict(_r("exists", K, pf="lower", us=True), nn=1),      # result undetermined; existence == lookup is not
@@ -840,7 +922,7 @@ def gen_history(rng):
         nss = [4]                       # local-name namespace: expander falls back to a full-title lookup
     else:
         nss = rng.sample(NSS, rng.choice([1, 1, 2, 2, 3]))
-    bases = rng.sample(BASES, rng.choice([1, 2, 2, 3]))
+    bases = stems(rng, rng.choice([1, 1, 2, 2]))
     n = rng.randint(1, 40)
     ops, reads = [], []
     p_us = rng.choice([0.0, 0.0, 0.0, 0.05, 0.3])     # most histories never store a '_' title
@@ -848,7 +930,8 @@ def gen_history(rng):
         ns, b = rng.choice(nss), rng.choice(bases)
         r = rng.random()
         if r < 0.24:
-            op = {"o": "add", "ns": ns, "b": b, "pf": "canon" if (rng.random() < 0.7 or not ns) else "bare"}
+            op = {"o": "add", "ns": ns, "b": b, "pf": ("canon" if rng.random() < 0.7 else "bare") if ns else
+                  ("canon" if rng.random() < 0.6 else "main")}
             if " " in b and rng.random() < p_us:
                 op["us"] = True
             if ns not in (10,) and rng.random() < (0.6 if ns == 4 else 0.1):
@@ -856,9 +939,10 @@ def gen_history(rng):
             mr = rng.random()
             op["model"] = "Scribunto" if (ns == 828 and mr < 0.8) else "json" if mr > 0.93 else "wikitext"
         elif r < 0.33:
-            op = {"o": "redir", "ns": ns, "b": b, "pf": "canon" if (rng.random() < 0.8 or not ns) else "bare",
+            op = {"o": "redir", "ns": ns, "b": b, "pf": ("canon" if rng.random() < 0.8 else "bare") if ns else
+                  ("canon" if rng.random() < 0.7 else "main"),
                   "tb": rng.choice(bases), "tf": rng.choice(["canon", "canon", "canon", "bare", "us"]) if ns else
-                  rng.choice(["canon", "canon", "us"])}
+                  rng.choice(["canon", "canon", "us", "main"])}
             if rng.random() < 0.3:
                 op["rb"] = True
         elif r < 0.36:
@@ -965,7 +1049,9 @@ def run_shard(spec):
             c += 1
             if c % nsh != idx:
                 continue
-            mon.run([ALPHABET[j] for j in tup], "exhaustive", "E" + ",".join(map(str, tup)))
+            letter = LETTERS[(c // nsh) % len(LETTERS)]      # the first-letter parameter rotates over the histories
+            mon.run(instantiate([ALPHABET[j] for j in tup], letter), "exhaustive", "E" + ",".join(map(str, tup)))
+            obs.add("first_letters", letter)
     # part R: random
     for _ in range(spec["n_random"]):
         ops = gen_history(rng)
